@@ -1,7 +1,7 @@
 """C07 registry: industrial components."""
 from __future__ import annotations
 
-from props.c07_core import Backend, Drv, Entity, Event
+from props.c07_core import Backend, Drv, Entity, Event, P, R
 
 from happysimulator.components.industrial import (AppointmentScheduler, BalkingQueue, BatchProcessor,
                                                   BreakdownScheduler, ConditionalRouter, ConveyorBelt,
@@ -39,7 +39,7 @@ class BatchProcessorDrv(Drv):
     ops = ("item",)
 
     def build(self, cfg):
-        self.bp = BatchProcessor("batch", downstream=self.h.out, batch_size=2, process_time=cfg.L, timeout_s=0.75)
+        self.bp = BatchProcessor("batch", downstream=self.h.out, batch_size=2, process_time=cfg.L, timeout_s=P(0.75))
         return [self.bp]
 
     def request(self, i, op):
@@ -58,7 +58,7 @@ class BreakdownSchedulerDrv(Drv):
 
     def build(self, cfg):
         self.m = _Machine("machine", concurrency=1, service_time=cfg.lat(), downstream=self.h.out)
-        self.bd = BreakdownScheduler("breakdowns", target=self.m, mean_time_to_failure=1.0, mean_repair_time=0.5)
+        self.bd = BreakdownScheduler("breakdowns", target=self.m, mean_time_to_failure=P(1.0), mean_repair_time=P(0.5))
         return [self.m, self.bd]
 
     def init(self):
@@ -177,8 +177,8 @@ class PerishableInventoryDrv(Drv):
 
     def build(self, cfg):
         self.waste = Backend("waste", 0.0, None)
-        self.inv = PerishableInventory("blood-bank", initial_stock=2, shelf_life_s=1.25,
-                                       spoilage_check_interval_s=0.5, reorder_point=1, order_quantity=2,
+        self.inv = PerishableInventory("blood-bank", initial_stock=2, shelf_life_s=P(1.25),
+                                       spoilage_check_interval_s=P(0.5), reorder_point=1, order_quantity=2,
                                        lead_time=cfg.L, downstream=self.h.out, waste_target=self.waste)
         return [self.waste, self.inv]
 
@@ -225,7 +225,7 @@ class _Teller(RenegingQueuedResource):
     """Concrete reneging server written like the documented pattern (capacity 1, service L)."""
 
     def __init__(self, name, L, out, reneged):
-        super().__init__(name, reneged_target=reneged, default_patience_s=0.75)
+        super().__init__(name, reneged_target=reneged, default_patience_s=P(0.75))
         self.L, self.out, self.busy = L, out, 0
 
     def has_capacity(self):
